@@ -203,6 +203,17 @@ C31_SectorEntry(lab, elems, qed) ==
   /\ lab \in SectorLabels(qed)
   /\ {elems[k] : k \in 1..Len(elems)} = SectorElems(lab, 6, qed) /\ Injective(elems)
 
+(* the grouping of the sectors: coupled singlet-like pairs, coupled valence-like pairs     *)
+(* (unified basis only), diagonal non-singlet families                                    *)
+C31_SectorGroups(sing, val, ns, qed) ==
+  /\ Injective(sing \o val \o ns)
+  /\ {sing[k] : k \in 1..Len(sing)} = {l \in SectorLabels(qed) : l[2] # 0 /\ l[1] \in DOMAIN SingName}
+  /\ {val[k] : k \in 1..Len(val)} = {l \in SectorLabels(qed) : l[2] # 0 /\ l[1] \in DOMAIN ValName}
+  /\ {ns[k] : k \in 1..Len(ns)} = {l \in SectorLabels(qed) : l[2] = 0}
+(* the list of labels of the intrinsic unified basis with nf light flavours *)
+C31_IntrinsicLabels(labels, nf, qed) ==
+  Injective(labels) /\ {labels[k] : k \in 1..Len(labels)} = Basis(nf, qed)
+
 (* a sector map P (acting on row vectors, x |-> x.P) sends each source distribution onto *)
 (* its target and annihilates every other distribution of the evolution basis            *)
 SectorImage(x, lab, nf, qed) ==
